@@ -41,7 +41,7 @@ Lemma visit_endpoint_eq V m f bbs s from a e caller :
           if is_cut (assoc2 (a,e) bbs) || is_visited s2 a e then Ok (ve_cut V s2 from a ep (assoc2 (a,e) bbs))
           else
             bind (walk_list (fun s t te last => visit_endpoint V m f bbs s (Some a) t te (Some (snd (activated s2 a (suppr ap)), last)))
-                            a (sender_of from) (push_visited (fst (activated s2 a (suppr ap))) a e) (ep_body ep) true)
+                            (v_nil_panics V) a (sender_of from) (push_visited (fst (activated s2 a (suppr ap))) a e) (ep_body ep) true)
                  (fun s5 => Ok (pop_visited (fire s5 (snd (activated s2 a (suppr ap)))) a e))
       end
   end.
@@ -61,11 +61,12 @@ Section NoPanic.
   Variable V : variant.
   Variable m : module.
   Hypothesis HV : v_lookup_panics V = false.
+  Hypothesis HN : v_nil_panics V = false.
 
-  Lemma run_no_panic call il : (forall s t te last, call s t te last <> Panic) -> forall s, run call il s <> Panic.
+  Lemma run_no_panic call il : (forall s t te last, call s t te last <> Panic) -> forall s, run call (v_nil_panics V) il s <> Panic.
   Proof.
     intros Hc. induction il as [|i r IH]; intros s; cbn [run]; [discriminate|].
-    destruct i as [e|t te last]; [apply IH|].
+    destruct i as [e|t te last|]; [apply IH| |rewrite HN; discriminate].
     specialize (Hc s t te last). destruct (call s t te last); cbn [bind]; auto; discriminate.
   Qed.
 
@@ -96,11 +97,28 @@ End NoPanic.
 (* today's source (before the repair) does panic: a call to an application that does not exist *)
 Definition dangling_module : module := [(0%N, {| app_pats := []; app_eps := [(0%N, {| ep_hidden := false; ep_body := [Call 1%N 0%N] |})] |})].
 Theorem seq_no_panic_refuted_when_lookups_panic :
-  gen {| v_lookup_panics := true; v_inprog_unguarded := false |} dangling_module (fuel_for dangling_module) [] [(0%N,0%N)] = Panic.
+  gen {| v_lookup_panics := true; v_inprog_unguarded := false; v_nil_panics := false |} dangling_module (fuel_for dangling_module) [] [(0%N,0%N)] = Panic.
 Proof. vm_compute. reflexivity. Qed.
 Example seq_dangling_is_error_after_repair :
-  gen {| v_lookup_panics := false; v_inprog_unguarded := false |} dangling_module (fuel_for dangling_module) [] [(0%N,0%N)] = Err.
+  gen {| v_lookup_panics := false; v_inprog_unguarded := false; v_nil_panics := false |} dangling_module (fuel_for dangling_module) [] [(0%N,0%N)] = Err.
 Proof. vm_compute. reflexivity. Qed.
+
+(* ... and so did a statement whose `Stmt` is not set (a module read from .pb / .textpb / JSON can hold one): the
+   default arm of visitStatment's type switch was `panic("Unrecognised statement type")` *)
+Definition nil_module : module :=
+  [(0%N, {| app_pats := []; app_eps := [(0%N, {| ep_hidden := false; ep_body := [Call 1%N 0%N; Ret RetShown] |})] |});
+   (1%N, {| app_pats := []; app_eps := [(0%N, {| ep_hidden := false; ep_body := [Action; Block BCond [Nil]] |})] |})].
+Theorem seq_no_panic_refuted_when_nil_panics :
+  gen {| v_lookup_panics := false; v_inprog_unguarded := false; v_nil_panics := true |} nil_module (fuel_for nil_module) [] [(0%N,0%N)] = Panic.
+Proof. vm_compute. reflexivity. Qed.
+Example seq_nil_is_error_after_repair :
+  gen {| v_lookup_panics := false; v_inprog_unguarded := false; v_nil_panics := false |} nil_module (fuel_for nil_module) [] [(0%N,0%N)] = Err.
+Proof. vm_compute. reflexivity. Qed.
+(* a statement without `Stmt` that the walk does not reach (here: below a blackbox) does no harm *)
+Example seq_nil_unreached_is_harmless :
+  exists d ev, gen {| v_lookup_panics := false; v_inprog_unguarded := false; v_nil_panics := true |} nil_module (fuel_for nil_module)
+                   [{| bb_key := (1%N,0%N); bb_cut := true; bb_clen := CN |}] [(0%N,0%N)] = Ok (d, ev) /\ length (arrows ev) = 2.
+Proof. eexists. eexists. vm_compute. split; reflexivity. Qed.
 
 (* ================================================================ small facts about the primitives *)
 Lemma key_eqb_eq x y : key_eqb x y = true <-> x = y.
@@ -152,7 +170,7 @@ Section Terminates.
       + injection H as <-. rewrite visited_cut. apply visited_pre.
       + match type of H with bind ?r _ = _ => destruct r as [s5| | |] eqn:W; try discriminate end.
         cbn [bind] in H. injection H as <-.
-        apply (walk_pres _ a (sender_of from) (fun s s' => visited s' = visited s)) in W.
+        apply (walk_pres _ _ a (sender_of from) (fun s s' => visited s' = visited s)) in W.
         * unfold pop_visited, with_visited. cbn [visited]. rewrite visited_fire, W. unfold push_visited, with_visited. cbn [visited remove1].
           rewrite key_eqb_refl, visited_activated. apply visited_pre.
         * reflexivity.
@@ -176,14 +194,15 @@ Section Terminates.
   Qed.
 
   (* a generic "this failure never comes out of the walk" *)
-  Lemma run_neq call (X:outcome st) (Inv:st -> Prop) (Q:id*id -> Prop) :
+  Lemma run_neq call np (X:outcome st) (Inv:st -> Prop) (Q:id*id -> Prop) :
+    nil_fail np <> X ->
     (forall s, X <> Ok s) ->
     (forall s e, Inv s -> Inv (emit s e)) ->
     (forall s t te last, Inv s -> Q (t,te) -> call s t te last <> X /\ forall s', call s t te last = Ok s' -> Inv s') ->
-    forall il, Forall Q (calls_of il) -> forall s, Inv s -> run call il s <> X.
+    forall il, Forall Q (calls_of il) -> forall s, Inv s -> run call np il s <> X.
   Proof.
-    intros HX He Hc. induction il as [|i r IH]; intros HQ s Hs; cbn [run]; [intros E; symmetry in E; eapply HX, E|].
-    destruct i as [e|t te last].
+    intros HN HX He Hc. induction il as [|i r IH]; intros HQ s Hs; cbn [run]; [intros E; symmetry in E; eapply HX, E| ].
+    destruct i as [e|t te last|]; [| |exact HN].
     - apply IH; [exact HQ|apply He, Hs].
     - cbn [calls_of flat_map Datatypes.app] in HQ. inversion HQ as [|? ? Hq HQ']; subst.
       destruct (Hc s t te last Hs Hq) as [Hn Hi].
@@ -202,7 +221,8 @@ Section Terminates.
       apply orb_false_iff in C as [_ C]. apply is_visited_false in C. rewrite visited_pre in C.
       rewrite walk_flat.
       match goal with |- bind ?r _ <> _ => assert (Hr : r <> OutOfFuel); [|destruct r; cbn [bind]; auto; discriminate] end.
-      apply (run_neq _ OutOfFuel (fun s1 => visited s1 = (a,e) :: visited s) (fun _ => True)).
+      apply (run_neq _ (v_nil_panics V) OutOfFuel (fun s1 => visited s1 = (a,e) :: visited s) (fun _ => True)).
+      + unfold nil_fail. destruct (v_nil_panics V); discriminate.
       + discriminate.
       + intros s1 ev H1. exact H1.
       + intros s1 t te last H1 _. split.
@@ -243,7 +263,7 @@ Definition cyclic_module : module :=
   [(0%N, {| app_pats := []; app_eps := [(0%N, {| ep_hidden := false; ep_body := [Call 1%N 0%N; Call 0%N 0%N; Ret RetShown] |})] |});
    (1%N, {| app_pats := []; app_eps := [(0%N, {| ep_hidden := false; ep_body := [Block BLoop [Call 0%N 0%N]; Ret RetPrim] |})] |})].
 Example seq_terminates_nonvacuous :
-  exists d ev, gen {| v_lookup_panics := false; v_inprog_unguarded := false |} cyclic_module (fuel_for cyclic_module) [] [(0%N,0%N)] = Ok (d, ev)
+  exists d ev, gen {| v_lookup_panics := false; v_inprog_unguarded := false; v_nil_panics := false |} cyclic_module (fuel_for cyclic_module) [] [(0%N,0%N)] = Ok (d, ev)
                /\ length (arrows ev) = 4.
 Proof. eexists. eexists. vm_compute. split; reflexivity. Qed.
 
@@ -279,14 +299,14 @@ Inductive Trace (Q:id -> id -> bool -> list event -> Prop) : list instr -> list 
 | T_emit e il evs : Trace Q il evs -> Trace Q (IEmit e :: il) (e :: evs)
 | T_call t te last il c evs : Q t te last c -> Trace Q il evs -> Trace Q (ICall t te last :: il) (c ++ evs).
 
-Lemma run_trace call (Inv:st -> Prop) (Q:id -> id -> bool -> list event -> Prop) :
+Lemma run_trace call np (Inv:st -> Prop) (Q:id -> id -> bool -> list event -> Prop) :
   (forall s e, Inv s -> Inv (emit s e)) ->
   (forall s t te last s', Inv s -> call s t te last = Ok s' -> Inv s' /\ exists evs, ext s s' evs /\ Q t te last evs) ->
-  forall il s s', Inv s -> run call il s = Ok s' -> exists evs, ext s s' evs /\ Trace Q il evs.
+  forall il s s', Inv s -> run call np il s = Ok s' -> exists evs, ext s s' evs /\ Trace Q il evs.
 Proof.
   intros He Hc. induction il as [|i r IH]; intros s s' Hs H; cbn [run] in H.
   - injection H as <-. exists []. split; [apply ext_refl|constructor].
-  - destruct i as [e|t te last].
+  - destruct i as [e|t te last|]; [| |destruct np; discriminate].
     + destruct (IH _ _ (He _ e Hs) H) as (evs & Hx & Ht). exists ([e] ++ evs). split; [eapply ext_trans; [apply ext_emit|exact Hx]|constructor; exact Ht].
     + destruct (call s t te last) as [s1| | |] eqn:E; try discriminate. cbn [bind] in H.
       destruct (Hc _ _ _ _ _ Hs E) as (Hs1 & c & Hx1 & Hq). destruct (IH _ _ Hs1 H) as (evs & Hx & Ht).
@@ -349,7 +369,7 @@ Section Blocks.
   Qed.
   Lemma balanced_stmt x : wf_stmt x = true -> forall last, balanced (skel (fstmt x last)).
   Proof.
-    induction x as [t te| | |k|k b IH|cs IH] using stmt_ind'; intros Hw last; try (intros stk; reflexivity).
+    induction x as [t te| | |k|k b IH|cs IH|] using stmt_ind'; intros Hw last; try (intros stk; reflexivity).
     - rewrite flat_block. intros stk.
       change (skel (IEmit (Open (kw_of k)) :: flist b last ++ [IEmit Close])) with (Open (kw_of k) :: skel (flist b last ++ [IEmit Close])).
       rewrite skel_app. cbn [blk]. rewrite blk_app, (balanced_list_of b IH Hw). reflexivity.
@@ -458,7 +478,7 @@ Section Output.
         destruct (activated_ext s2 a (suppr ap)) as (q2 & X2 & Q2).
         destruct (fire_ext s5 (snd (activated s2 a (suppr ap)))) as (q3 & X3 & Q3).
         rewrite walk_flat in W.
-        apply (run_trace _ (fun s1 => visited s1 = (a,e) :: visited s)
+        apply (run_trace _ _ (fun s1 => visited s1 = (a,e) :: visited s)
                  (fun t te last c => (wf_module m -> balanced c) /\ arrows c = ref_calls m bbs f ((a,e) :: visited s) (Some a) t te)) in W.
         * destruct W as (ew & Xw & Tw).
           exists ((((A ++ q1) ++ q2) ++ ew) ++ q3). split.
@@ -530,7 +550,7 @@ End Output.
    "alt": the hypothesis wf_module of seq_blocks_closed is needed *)
 Definition empty_alt_module : module := [(0%N, {| app_pats := []; app_eps := [(0%N, {| ep_hidden := false; ep_body := [Alt []] |})] |})].
 Theorem seq_blocks_closed_refuted_for_empty_alt :
-  exists d ev, gen {| v_lookup_panics := false; v_inprog_unguarded := false |} empty_alt_module (fuel_for empty_alt_module) [] [(0%N,0%N)] = Ok (d, ev)
+  exists d ev, gen {| v_lookup_panics := false; v_inprog_unguarded := false; v_nil_panics := false |} empty_alt_module (fuel_for empty_alt_module) [] [(0%N,0%N)] = Ok (d, ev)
                /\ blk [] ev = None.
 Proof. eexists. eexists. vm_compute. split; reflexivity. Qed.
 Example seq_blocks_closed_nonvacuous : wf_module cyclic_module.
@@ -792,18 +812,18 @@ Section Activations.
   Proof. destruct e; cbn; try contradiction; reflexivity. Qed.
 
   (* the body of one expansion: own cell n (agent a, armed unless a is suppressed) *)
-  Lemma run_act call a sndr n b :
+  Lemma run_act call np a sndr n b :
     (forall s t te last s', call s t te last = Ok s' -> Tr s -> Cn s -> sender_ok s (Some a) ->
                             Tr s' /\ Cn s' /\ R1 s s' /\ R2 (Some (n, last)) s s') ->
     (b = true -> suppressed m a = true) ->
     forall il, flag_ok il = true -> Forall (instr_ok a sndr) il ->
     forall s1 s1', Tr s1 -> Cn s1 -> (forallb is_emit il = false -> b = false -> arm (cells s1) n a) ->
-      run call il s1 = Ok s1' ->
+      run call np il s1 = Ok s1' ->
       Tr s1' /\ Cn s1' /\ R1 s1 s1' /\ (forall i x, i <> n -> arm (cells s1) i x -> arm (cells s1') i x).
   Proof.
     intros IHc Hsup. induction il as [|ins r IH]; intros Hf Hok s1 s1' HT HC Harm H; cbn [run] in H.
     - injection H as <-. repeat split; auto. intros i x Hx; exact Hx.
-    - inversion Hok as [|? ? Hi Hok']; subst. destruct ins as [ev|t te last].
+    - inversion Hok as [|? ? Hi Hok']; subst. destruct ins as [ev|t te last|]; [| |destruct np; discriminate].
       + cbn [flag_ok] in Hf.
         destruct (IH Hf Hok' (emit s1 ev) s1' (Tr_emit _ _ (walk_ev_neutral _ _ _ Hi) HT) (Cn_same _ _ eq_refl eq_refl HC) Harm H) as (T' & C' & R' & K').
         repeat split; auto.
@@ -812,7 +832,7 @@ Section Activations.
         { intros Hst. destruct b eqn:Eb; [left; apply Hsup; reflexivity|right].
           specialize (Harm eq_refl eq_refl). apply arm_armed in Harm. specialize (HC a). unfold cmp in HC. rewrite Hst in HC. lia. }
         destruct (IHc _ _ _ _ _ E HT HC Hs) as (T2 & C2 & R12 & R22).
-        assert (Hr : flag_ok r = true) by (destruct last; [apply unflagged_flag_ok; cbn [flag_ok] in Hf; unfold unflagged; rewrite forallb_forall in *; intros i0 Hi0; specialize (Hf i0 Hi0); destruct i0; [reflexivity|discriminate]|exact Hf]).
+        assert (Hr : flag_ok r = true) by (destruct last; [apply unflagged_flag_ok; cbn [flag_ok] in Hf; unfold unflagged; rewrite forallb_forall in *; intros i0 Hi0; specialize (Hf i0 Hi0); destruct i0; [reflexivity|discriminate|reflexivity]|exact Hf]).
         assert (Harm2 : forallb is_emit r = false -> b = false -> arm (cells s2) n a).
         { intros Hne Hb. destruct last; [cbn [flag_ok] in Hf; congruence|].
           destruct (R22 _ _ (Harm eq_refl Hb)) as [Hc|Hc]; [discriminate|exact Hc]. }
@@ -851,7 +871,7 @@ Section Activations.
         cbn [bind] in H. injection H as <-.
         rewrite walk_flat in W. set (bsup := suppr ap) in *. set (s3 := fst (activated s2 a bsup)) in *.
         assert (E3 : cells s3 = cells s2 ++ [(a, negb bsup)]) by apply cells_activated.
-        apply (run_act _ a (sender_of from) n bsup) in W.
+        apply (run_act _ _ a (sender_of from) n bsup) in W.
         * destruct W as (T5 & C5 & R45 & K45). change (cells (push_visited s3 a e)) with (cells s3) in *.
           repeat split.
           -- eapply Tr_same; [| |apply (Tr_fire s5 n T5)]; reflexivity.
@@ -959,7 +979,7 @@ Definition inprog_module : module :=
    (2%N, {| app_pats := []; app_eps := [(0%N, {| ep_hidden := false; ep_body := [Action] |})] |})].
 Theorem seq_sender_active_refuted_when_unguarded :
   exists d ev pre t e post,
-    gen {| v_lookup_panics := false; v_inprog_unguarded := true |} inprog_module (fuel_for inprog_module) [] [(0%N,0%N)] = Ok (d, ev)
+    gen {| v_lookup_panics := false; v_inprog_unguarded := true; v_nil_panics := false |} inprog_module (fuel_for inprog_module) [] [(0%N,0%N)] = Ok (d, ev)
     /\ ev = pre ++ Arrow (P 0%N) t e :: post /\ suppressed inprog_module 0%N = false /\ n_act 0%N pre = n_deact 0%N pre.
 Proof.
   eexists. eexists.
@@ -968,7 +988,7 @@ Proof.
   eexists. eexists. eexists. vm_compute. repeat split; reflexivity.
 Qed.
 Example seq_sender_active_nonvacuous :
-  exists d ev, gen {| v_lookup_panics := false; v_inprog_unguarded := false |} inprog_module (fuel_for inprog_module) [] [(0%N,0%N)] = Ok (d, ev)
+  exists d ev, gen {| v_lookup_panics := false; v_inprog_unguarded := false; v_nil_panics := false |} inprog_module (fuel_for inprog_module) [] [(0%N,0%N)] = Ok (d, ev)
                /\ n_act 0%N ev = 1 /\ length (arrows ev) = 4.
 Proof. eexists. eexists. vm_compute. repeat split; reflexivity. Qed.
 
@@ -1119,7 +1139,7 @@ Section Declared.
         assert (HR4 : forall s1 t te last s1',
                    visit_endpoint V m f bbs s1 (Some a) t te (Some (snd (activated s2 a (suppr ap)), last)) = Ok s1' -> R s1 s1')
           by (intros s1 t te last s1' Hc D1 _ _; eapply IH; eassumption).
-        pose proof (walk_pres _ a (sender_of from) R HR1 HR2 HR3 HR4 _ _ _ _ W) as W'.
+        pose proof (walk_pres _ _ a (sender_of from) R HR1 HR2 HR3 HR4 _ _ _ _ W) as W'.
         assert (D4 : Dc (push_visited (fst (activated s2 a (suppr ap))) a e))
           by (eapply Dc_same; [| | |apply (Dc_activated s2 a (suppr ap) A2 D2)]; reflexivity).
         assert (E4 : syms (push_visited (fst (activated s2 a (suppr ap))) a e) = syms s2)
@@ -1170,3 +1190,152 @@ Section Declared.
     - repeat split; [constructor|intros x []|intros y b []].
   Qed.
 End Declared.
+
+(* ================================================================ 7. several start entries: every section starts idle and is balanced *)
+Definition is_section (e:event) : bool := match e with Section _ _ => true | _ => false end.
+Definition nosec (evs:list event) : Prop := forallb (fun e => negb (is_section e)) evs = true.
+Lemma nosec_app x y : nosec x -> nosec y -> nosec (x ++ y).
+Proof. unfold nosec. intros Hx Hy. rewrite forallb_app, Hx, Hy. reflexivity. Qed.
+Lemma nosec_quiet q : forallb quiet q = true -> nosec q.
+Proof.
+  unfold nosec. induction q as [|e q IH]; [reflexivity|]. cbn [forallb]. intros H. apply andb_prop in H as [He Hq].
+  rewrite (IH Hq). destruct e; try discriminate; reflexivity.
+Qed.
+Lemma rev_case {A} (l:list A) : l = [] \/ exists l' x, l = l' ++ [x].
+Proof. induction l as [|x l' _] using rev_ind; [left; reflexivity|right; eauto]. Qed.
+(* a section header that stands in l1 ++ evs, where evs has none, stands in l1 *)
+Lemma split_nosec l1 pre a e : forall evs post,
+  l1 ++ evs = pre ++ Section a e :: post -> nosec evs -> exists post', l1 = pre ++ Section a e :: post'.
+Proof.
+  induction evs as [|x evs IH] using rev_ind; intros post H N.
+  - rewrite app_nil_r in H. eauto.
+  - unfold nosec in N. rewrite forallb_app in N. apply andb_prop in N as [N1 N2]. cbn [forallb] in N2. rewrite andb_true_r in N2.
+    rewrite app_assoc in H. destruct (rev_case post) as [->|(post' & y & ->)].
+    + change (pre ++ [Section a e]) with (pre ++ [Section a e]) in H. apply app_inj_tail in H as [_ ->]. discriminate.
+    + change (pre ++ Section a e :: post' ++ [y]) with (pre ++ (Section a e :: post') ++ [y]) in H. rewrite app_assoc in H.
+      apply app_inj_tail in H as [H _]. eapply IH; eassumption.
+Qed.
+
+Section Sections.
+  Variable V : variant.
+  Variable m : module.
+  Notation strict := (strict_of V).
+
+  Lemma visit_endpoint_nosec fuel : forall bbs s from a e caller s',
+    visit_endpoint V m fuel bbs s from a e caller = Ok s' -> exists evs, ext s s' evs /\ nosec evs.
+  Proof.
+    induction fuel as [|f IH]; intros bbs s from a e caller s' H; [discriminate|].
+    rewrite visit_endpoint_eq in H. destruct (lookup m a e) as [[ap ep]|] eqn:L; [|exfalso; eapply lookup_fail_not_ok, H].
+    cbv zeta in H.
+    destruct (pre_ext s from a e ap ep (is_shown (ret_payload (ep_body ep))) caller) as (q1 & X1 & Q1).
+    set (s2 := ve_early _ _ _ _ _) in *.
+    assert (N1 : nosec ((if arrow_drawn from ap ep then [Arrow (sender_of from) a e] else []) ++ q1)).
+    { apply nosec_app; [destruct (arrow_drawn from ap ep); reflexivity|apply nosec_quiet, Q1]. }
+    destruct (ep_body ep) as [|x b] eqn:Eb.
+    - injection H as <-. eauto.
+    - destruct (_ || _) in H.
+      + injection H as <-. destruct (cut_ext V s2 from a ep (assoc2 (a,e) bbs)) as (q2 & X2 & Q2).
+        eexists. split; [eapply ext_trans; eassumption|apply nosec_app; [exact N1|apply nosec_quiet, Q2]].
+      + match type of H with bind ?r _ = _ => destruct r as [s5| | |] eqn:W; try discriminate end.
+        cbn [bind] in H. injection H as <-.
+        destruct (activated_ext s2 a (suppr ap)) as (q2 & X2 & Q2).
+        destruct (fire_ext s5 (snd (activated s2 a (suppr ap)))) as (q3 & X3 & Q3).
+        apply (walk_pres _ _ a (sender_of from) (fun s s' => exists evs, ext s s' evs /\ nosec evs)) in W.
+        * destruct W as (ew & Xw & Nw). eexists. split.
+          { eapply ext_trans; [|exact X3]. eapply ext_trans; [|exact Xw]. eapply ext_trans; eassumption. }
+          apply nosec_app; [apply nosec_app; [apply nosec_app; [exact N1|apply nosec_quiet, Q2]|exact Nw]|apply nosec_quiet, Q3].
+        * intros s1. exists []. split; [apply ext_refl|reflexivity].
+        * intros s1 s1' s1'' (e1 & Y1 & M1) (e2 & Y2 & M2). exists (e1 ++ e2). split; [eapply ext_trans; eassumption|apply nosec_app; assumption].
+        * intros s1 ev Hev. exists [ev]. split; [apply ext_emit|]. destruct ev; cbn in Hev; try contradiction; reflexivity.
+        * intros s1 t te last s1' Hc. eapply IH, Hc.
+  Qed.
+
+  (* the judge accepts the body up to every section header, and all counters are zero there *)
+  Definition idle_at_sections (evs:list event) : Prop :=
+    forall pre a e post, evs = pre ++ Section a e :: post -> exists l, track strict m [] pre = Some l /\ forall x, get x l = 0.
+  Definition NoArm (s:st) : Prop := forall i y, ~ arm (cells s) i y.
+
+  Lemma idle_of s : Cn V s -> NoArm s -> forall x, get x (active s) = 0.
+  Proof.
+    intros C Z x. specialize (C x). rewrite (no_arm_armed (cells s) x Z) in C. unfold cmp in C. destruct strict; lia.
+  Qed.
+
+  Lemma run_entries_sec fuel all : forall es bbs s s',
+    run_entries V m fuel all bbs s es = Ok s' -> Tr V m s -> Cn V s -> NoArm s -> idle_at_sections (out s) -> idle_at_sections (out s').
+  Proof.
+    induction es as [|[a e] r IH]; intros bbs s s' H HT HC HZ HS; cbn [run_entries] in H; [injection H as <-; exact HS|].
+    destruct (lookup m a e); [|discriminate].
+    match type of H with bind ?r _ = _ => destruct r as [s1| | |] eqn:W; try discriminate end. cbn [bind] in H.
+    set (s0 := with_visited (emit s (Section a e)) []) in *.
+    assert (T0 : Tr V m s0) by (eapply Tr_same; [| |apply (Tr_emit V m s (Section a e) eq_refl HT)]; reflexivity).
+    assert (C0 : Cn V s0) by (eapply Cn_same; [| |exact HC]; reflexivity).
+    assert (S0 : idle_at_sections (out s0)).
+    { intros pre a' e' post E. change (out s0) with (out s ++ [Section a e]) in E.
+      destruct (rev_case post) as [->|(post' & y & ->)].
+      - apply app_inj_tail in E as [<- _]. exists (active s). split; [exact HT|apply idle_of; assumption].
+      - change (pre ++ Section a' e' :: post' ++ [y]) with (pre ++ (Section a' e' :: post') ++ [y]) in E. rewrite app_assoc in E.
+        apply app_inj_tail in E as [E _]. eapply HS, E. }
+    pose proof W as W2. apply visit_endpoint_nosec in W2 as (evs & X & N).
+    apply visit_endpoint_act in W as (T1 & C1 & R1' & _); [|exact T0|exact C0|intros _; exact I].
+    eapply IH; [exact H|exact T1|exact C1| |].
+    - intros i y Hy. apply R1' in Hy. eapply HZ, Hy.
+    - intros pre a' e' post E. unfold ext in X. rewrite X in E. apply split_nosec in E as (post' & E); [|exact N]. eapply S0, E.
+  Qed.
+
+  Theorem seq_sections_idle fuel bbs starts d ev :
+    gen V m fuel bbs starts = Ok (d, ev) -> idle_at_sections ev.
+  Proof.
+    intros H. unfold gen, gen_st in H. destruct (run_entries _ _ _ _ _ _ _) as [s| | |] eqn:R; try discriminate.
+    cbn [bind] in H. injection H as _ <-.
+    eapply run_entries_sec; [exact R| | | |].
+    - reflexivity.
+    - intros x. unfold cmp. cbn. destruct strict; reflexivity.
+    - intros i y Hy. unfold arm in Hy. cbn [cells init] in Hy. destruct i; discriminate.
+    - intros pre a e post E. cbn [out init] in E. destruct pre; discriminate.
+  Qed.
+End Sections.
+
+Lemma n_act_app x l1 l2 : n_act x (l1 ++ l2) = n_act x l1 + n_act x l2.
+Proof. unfold n_act. rewrite filter_app, app_length. reflexivity. Qed.
+Lemma n_deact_app x l1 l2 : n_deact x (l1 ++ l2) = n_deact x l1 + n_deact x l2.
+Proof. unfold n_deact. rewrite filter_app, app_length. reflexivity. Qed.
+
+(* with several start entries (-s repeated, a project endpoint with several calls): when a section header is written
+   every participant has been deactivated as often as it was activated *)
+Theorem seq_sections_start_idle V m fuel bbs starts d ev :
+  gen V m fuel bbs starts = Ok (d, ev) ->
+  forall pre a e post, ev = pre ++ Section a e :: post -> forall x, n_act x pre = n_deact x pre.
+Proof.
+  intros H pre a e post E x. destruct (seq_sections_idle V m _ _ _ _ _ H _ _ _ _ E) as (l & T & Z).
+  pose proof (track_counts _ _ _ _ _ T x) as Hc. rewrite Z in Hc. cbn [get] in Hc. lia.
+Qed.
+
+(* ... so every section - the events between its header and the next header or the end of the body - is balanced by
+   itself: per participant as many deactivations as activations, and no prefix of the section goes negative *)
+Theorem seq_section_balanced V m fuel bbs starts d ev :
+  gen V m fuel bbs starts = Ok (d, ev) ->
+  forall pre a e seg rest, ev = pre ++ Section a e :: seg ++ rest -> (rest = [] \/ exists a' e' r, rest = Section a' e' :: r) ->
+  forall x, n_act x seg = n_deact x seg /\ forall p q, seg = p ++ q -> n_deact x p <= n_act x p.
+Proof.
+  intros H pre a e seg rest E Hrest x.
+  pose proof (seq_sections_start_idle _ _ _ _ _ _ _ H pre a e (seg ++ rest) E x) as H0.
+  destruct (seq_balanced _ _ _ _ _ _ _ H x) as [Hall Hpre]. split.
+  - assert (H1 : n_act x (pre ++ Section a e :: seg) = n_deact x (pre ++ Section a e :: seg)).
+    { destruct Hrest as [->|(a' & e' & r & ->)].
+      - rewrite app_nil_r in E. rewrite <- E. exact Hall.
+      - apply (seq_sections_start_idle _ _ _ _ _ _ _ H (pre ++ Section a e :: seg) a' e' r).
+        rewrite E, <- app_assoc. reflexivity. }
+    change (pre ++ Section a e :: seg) with (pre ++ [Section a e] ++ seg) in H1.
+    rewrite !n_act_app, !n_deact_app in H1. cbn in H1. lia.
+  - intros p q ->. specialize (Hpre (pre ++ [Section a e] ++ p) (q ++ rest)).
+    rewrite !n_act_app, !n_deact_app in Hpre. cbn in Hpre.
+    assert (Hx : n_deact x pre + n_deact x p <= n_act x pre + n_act x p); [|lia].
+    apply Hpre. rewrite E, <- !app_assoc. reflexivity.
+Qed.
+
+(* three start entries; the second is called by the first (so it is a "see below" upto there) *)
+Example seq_sections_nonvacuous :
+  exists d ev, gen {| v_lookup_panics := false; v_inprog_unguarded := false; v_nil_panics := false |} inprog_module (fuel_for inprog_module) []
+                   [(0%N,0%N); (1%N,0%N); (2%N,0%N)] = Ok (d, ev)
+               /\ length (filter is_section ev) = 3 /\ n_act 0%N ev = 2.
+Proof. eexists. eexists. vm_compute. repeat split; reflexivity. Qed.
